@@ -54,7 +54,7 @@ pub fn parse_inputs(seed: u64) -> impl Iterator<Item = Value> {
         }
     }
     // strings and block strings: every shape of indentation / blank lines / escapes
-    let lines = ["", " ", "  ", "\t", "    x", "  y", "z", "   ", "\\\"\"\"", "\"", "\\", "\u{e9}"];
+    let lines = ["", " ", "  ", "\t", "    x", "  y", "z", "   ", "\\\"\"\"", "\"", "\\", "\u{e9}", "\u{3000}b", "\u{a0}c", "\u{2003}", " \u{3000}", "\u{1F600}  d"];
     let seps = ["\n", "\r\n", "\r"];
     let mut r = Rng(seed);
     for a in lines { for b in lines { for c in lines { if r.below(3) == 0 { let s = seps[r.below(3) as usize];
@@ -65,5 +65,42 @@ pub fn parse_inputs(seed: u64) -> impl Iterator<Item = Value> {
     for d in ["", "{", "}", "{ a", "query", "query($a: [Int = 1) { a }", "{ a(b: [[[[[[[[[[1]]]]]]]]]]) }", "{ a(b: {c: {d: {e: $f}}}) }", "\u{feff}{ a }", "{ a @b(c: 1e400) }", "{ a(b: 99999999999999999999999) }", "{ a(b: -0.0e-0) }", "fragment on on on { on }"] {
         out.push(json!({"doc": d}));
     }
+    out.into_iter()
+}
+
+
+// ------------------------------------------------------------------------------------------------------------------
+// c12_multipart: hostile multipart bodies (operations / map / file parts) through http::receive_batch_body: error or request, never a panic
+pub fn multipart(args: &Value) -> Outcome {
+    use async_graphql::http::{receive_batch_body, MultipartOptions};
+    let b = "XbOuNdArY";
+    let mut body = String::new();
+    let mut part = |name: &str, filename: Option<&str>, content: &str| {
+        body.push_str(&format!("--{}\r\nContent-Disposition: form-data; name=\"{}\"{}\r\n\r\n{}\r\n", b, name, filename.map(|f| format!("; filename=\"{}\"", f)).unwrap_or_default(), content));
+    };
+    if let Some(o) = args["operations"].as_str() { part("operations", None, o); }
+    if let Some(m) = args["map"].as_str() { part("map", None, m); }
+    for f in args["files"].as_array().cloned().unwrap_or_default() { part(f.as_str().unwrap(), Some("f.txt"), "data"); }
+    body.push_str(&format!("--{}--\r\n", b));
+    let ct = format!("multipart/form-data; boundary={}", b);
+    let opts = MultipartOptions::default().max_num_files(4).max_file_size(4096);
+    let rt = tokio::runtime::Builder::new_current_thread().enable_all().build().unwrap();
+    let r = rt.block_on(receive_batch_body(Some(ct), futures_util::io::Cursor::new(body.into_bytes()), opts));
+    Outcome { holds: true, observed: match r { Ok(_) => "Ok(request)".into(), Err(e) => format!("Err({})", e) }, expected: "a request or an error, no panic".into() }
+}
+pub fn multipart_inputs(_seed: u64) -> impl Iterator<Item = Value> {
+    let single = r#"{"query": "mutation($file: Upload!) { up(file: $file) }", "variables": {"file": null, "files": [null, null], "o": {"f": null}}}"#;
+    let batch = r#"[{"query": "mutation($file: Upload!) { up(file: $file) }", "variables": {"file": null}}, {"query": "mutation($file: Upload!) { up(file: $file) }", "variables": {"file": null, "files": [null]}}]"#;
+    let paths = ["variables.file", "variables.files.0", "variables.files.1", "variables.files.2", "variables.files.99999999999999999999", "variables.files.-1", "variables.o.f", "variables.o.g", "variables.file.x", "variables", "", ".", "variables.", "query", "0.variables.file", "1.variables.file", "1.variables.files.0", "2.variables.file", "18446744073709551615.variables.file", "18446744073709551616.variables.file", "-1.variables.file", "x.variables.file", "0", "0.", "1.variables.files.5", "00.variables.file"];
+    let mut out = Vec::new();
+    for ops in [single, batch, "[]", "{}", "null", "[null]", "not json"] { for p in paths {
+        out.push(json!({"operations": ops, "map": format!("{{\"0\": [\"{}\"]}}", p), "files": ["0"]}));
+    } }
+    for m in [r#"{"0": []}"#, r#"{"1": ["variables.file"]}"#, r#"{"0": ["variables.file", "variables.files.0"], "1": ["variables.files.1"]}"#, r#"{"0": "variables.file"}"#, r#"[]"#, r#"{"0": [1]}"#, "not json", r#"{"": ["variables.file"]}"#] {
+        for ops in [single, batch] { out.push(json!({"operations": ops, "map": m, "files": ["0", "1"]})); out.push(json!({"operations": ops, "map": m, "files": []})); out.push(json!({"operations": ops, "map": m, "files": ["0", "0", "1", "2", "3", "4"]})); }
+    }
+    out.push(json!({"operations": single, "files": ["0"]}));
+    out.push(json!({"map": r#"{"0": ["variables.file"]}"#, "files": ["0"]}));
+    out.push(json!({"files": ["0"]}));
     out.into_iter()
 }
